@@ -13,7 +13,16 @@ C29  Associate resolution and merging preserve program behaviour.
  R3  wiring: ``visit_Expression`` applies the resolving mapper; ``visit_Associate``
      returns the transformed body (or a clone holding it below the start depth);
      symbols are rescoped afterwards.
-Not decided: selector evaluation time, bounds remapping, merge legality.
+ R4  index binding is all-or-nothing: ``_match_range_indices`` binds the given
+     indices to the free ``:`` of the selector one by one; the guard in front of
+     that binding is evaluated for all (number of free ranges, number of indices)
+     in 0..3 x 0..3 and may fire only when the two counts are equal (fewer indices
+     raise, more indices silently bind the wrong position and drop the rest).
+ R5  the name -> selector table consulted by the mapper (``Associate.inverse_map``)
+     is built from the association *list*; going through a mapping keyed by the
+     selector collapses two names bound to the same selector and one of them is
+     never replaced.
+Not decided: selector evaluation time, bounds shifts, merge legality.
 """
 import ast
 
@@ -117,9 +126,81 @@ def run(ctx):
     ok = 'routine.body = transformer.visit(routine.body)' in src and 'routine.rescope_symbols()' in src
     (ctx.judge('R3', 'do_resolve_associates wiring') if ok else
      ctx.violation('R3', 'do_resolve_associates', dra.where, 'body not replaced by the transformed body / symbols not rescoped'))
+    _r4_r5(ctx)
+
+
+def _r4_r5(ctx):
+    import itertools
+    from sa.miniev import ev, Unknown
+    m = ctx.model
+    ctx.rule('R4', '_match_range_indices: the guard of the sequential binding (next(it) per RangeIndex) holds only when '
+                   'len(free ranges) == len(indices), evaluated over 0..3 x 0..3')
+    ctx.rule('R5', 'Associate.inverse_map iterates the `associations` field itself (pairs), not a mapping keyed by selector')
+    M = m.get_class(FILE, 'ResolveAssociateMapper')
+    f = M.function('_match_range_indices')
+    if f is None:
+        raise AnalysisError('ResolveAssociateMapper._match_range_indices vanished')
+    params = [a.arg for a in f.node.args.args]
+    # the collection of free ranges: a local assigned from a comprehension filtered by isinstance(.., RangeIndex)
+    free = [n.targets[0].id for n in ast.walk(f.node) if isinstance(n, ast.Assign) and isinstance(n.targets[0], ast.Name)
+            and 'RangeIndex' in ast.unparse(n.value) and isinstance(n.value, ast.Call)]
+    binds = []
+    for node, guards in X.nodes_with_guards(f.node, lambda x: isinstance(x, ast.Call) and X.call_name_of(x) == 'next', early=True):
+        binds.append((node, guards))
+    if not free or not binds or len(params) < 2:
+        raise AnalysisError('_match_range_indices: binding idiom (free ranges / next(it)) not recognised')
+    idx = params[-1]
+    nb = 0
+    for node, guards in binds:
+        nb += 1
+        gasts = [ast.parse(g, mode='eval').body for g in guards]
+        bad = None
+        for nf, ni in itertools.product(range(4), range(4)):
+            env = {free[0]: ('X',) * nf, idx: ('X',) * ni}
+            try:
+                fires = all(ev(g, env) for g in gasts)
+            except Unknown as u:
+                raise AnalysisError(f'_match_range_indices: guard uses `{u}`, outside the evaluated fragment')
+            if fires and nf != ni and bad is None:
+                bad = (nf, ni)
+        inst = '_match_range_indices:binding-guard'
+        gtxt = ' and '.join(guards) or 'True'
+        if bad:
+            ctx.violation('R4', inst, f'{f.module.relpath}:{node.lineno}',
+                          f'the indices are bound to the free ranges under `{gtxt}`, which also holds for {bad[0]} free range(s) and '
+                          f'{bad[1]} indices: e.g. `c%arr(i, :)` with one free `:` and the two subscripts (i, :) binds the first subscript '
+                          f'to the free position and drops the rest', facts={'guard': gtxt, 'counterexample': {'free': bad[0], 'indices': bad[1]}})
+        else:
+            ctx.judge('R4', inst, facts={'guard': gtxt, 'pairs_evaluated': 16})
+    ctx.floor('R4', 'sequential index bindings', nb, 1)
+    # ---- R5
+    A = m.get_class('loki/ir/nodes/internal_nodes.py', 'Associate')
+    inv = A.members.get('inverse_map')
+    if inv is None:
+        raise AnalysisError('Associate.inverse_map vanished')
+    comps = [c for c in ast.walk(inv.node) if isinstance(c, (ast.GeneratorExp, ast.ListComp, ast.DictComp))]
+    if len(comps) != 1:
+        raise AnalysisError('Associate.inverse_map: expected one comprehension')
+    it = comps[0].generators[0].iter
+    txt = ast.unparse(it)
+    if txt == 'self.associations':
+        ctx.judge('R5', 'Associate.inverse_map:source', facts={'iterates': txt})
+    elif isinstance(it, ast.Call) and isinstance(it.func, ast.Attribute) and it.func.attr in ('items', 'keys', 'values'):
+        ctx.violation('R5', 'Associate.inverse_map:source', f'{A.module.relpath}:{inv.node.lineno}',
+                      f'inverse_map is derived from `{txt}`, a mapping keyed by the selector: two names associated with the same selector '
+                      f'(`associate(told => base%t, t => base%t)`) collapse to one entry and the other name is never resolved although '
+                      f'the ASSOCIATE block is removed', facts={'iterates': txt})
+    else:
+        raise AnalysisError(f'Associate.inverse_map iterates `{txt}`: unrecognised source')
+    use = [n for n in ast.walk(M.function('map_scalar').node) if isinstance(n, ast.Attribute) and n.attr == 'inverse_map']
+    ctx.floor('R5', 'uses of inverse_map in the resolving mapper', len(use), 1)
 
 
 MUTANTS = [
+    Mutant('binding-guard-at-least', FILE, "        if len(free_symbols) == len(indices):", "        if len(indices) >= len(free_symbols):", expect=('R4', 'binding-guard')),
+    Mutant('neutral-binding-guard-flipped', FILE, "        if len(free_symbols) == len(indices):", "        if not len(indices) != len(free_symbols):", expect=None),
+    Mutant('inverse-map-through-selector-map', 'loki/ir/nodes/internal_nodes.py', "        return CaseInsensitiveDict((v, k) for k, v in self.associations)",
+           "        return CaseInsensitiveDict((v, k) for k, v in self.association_map.items())", expect=('R5', 'inverse_map')),
     Mutant('call-skips-kwargs', FILE, "        kwarguments = tuple((k, self.visit(v, **kwargs)) for k, v in o.kwarguments)\n        return o._rebuild(name=name, arguments=arguments, kwarguments=kwarguments)",
            "        return o._rebuild(name=name, arguments=arguments)", expect=('R1', 'visit_CallStatement:kwarguments'), quick=True),
     Mutant('call-skips-name', FILE, "        name = self.visit(o.name, **kwargs)\n        arguments = self.visit(o.arguments, **kwargs)", "        name = o.name\n        arguments = self.visit(o.arguments, **kwargs)",
